@@ -15,6 +15,9 @@ rsync -a --exclude .build --exclude replays --exclude '*.vo' --exclude '*.glob' 
 # reuse the compiled Coq development and runner (they do not depend on the patch unless constants change)
 mkdir -p "$vf/.build"
 rsync -a /verif/.build/runner "$vf/.build/" 2>/dev/null
+# seed the cargo target directories: third-party crates are reused, feoxdb and the harness are rebuilt
+mkdir -p "$vf/.build/target" && rsync -a /verif/.build/target/release "$vf/.build/target/" 2>/dev/null
+[ -d /verif/.build/target-asan ] && rsync -a /verif/.build/target-asan "$vf/.build/" 2>/dev/null
 ( cd /verif/coq && find . -name '*.vo' -o -name '*.glob' -o -name '.*.aux' | rsync -a --files-from=- . "$vf/coq/" ) 2>/dev/null
 sed -i "s#path = \"/repo\"#path = \"$wt\"#" "$vf/harness/Cargo.toml"
 export VERIF_REPO="$wt"
